@@ -14,6 +14,15 @@ if ! cargo build --release --offline >/verif/out/build.log 2>&1; then
     tail -n 30 /verif/out/build.log
     exit 2
 fi
+if [ "$prop" = "C08" ]; then
+    # second build of foyer-common / foyer-storage with the `serde` feature (own workspace: no feature unification)
+    cd /verif/harness-serde || exit 2
+    if ! cargo build --release --offline >/verif/out/build-serde.log 2>&1; then
+        echo "BUILD-FAILED: harness-serde does not build against /repo (see /verif/out/build-serde.log)"
+        tail -n 30 /verif/out/build-serde.log
+        exit 2
+    fi
+fi
 cd /verif || exit 2
 # supervision: bound the address space and the wall clock so that a runaway loop or allocation inside the code under
 # test ends this run as "inconclusive" instead of taking the machine down
